@@ -195,7 +195,9 @@ def panic_sites(c, local_names):
             w = t["what"]
             if w.startswith("MisalignedPointer") or w.startswith("NullPointer"):
                 continue  # debug-build reference validity checks inserted by rustc, not source-level operations
-            out.append({"kind": "assert:" + w, "block": i, "ln": t["ln"], "mac": t.get("mac")})
+            # slice indexing (`v[i]` on a slice: a MIR BoundsCheck) and Vec indexing (a call of Index::index) are one kind: the same source expression is one or
+            # the other depending on whether the container is passed as `&Vec<T>` or `&[T]`
+            out.append({"kind": "ext:index" if w.startswith("BoundsCheck") else "assert:" + w, "block": i, "ln": t["ln"], "mac": t.get("mac")})
         elif t["k"] == "call":
             n = c.callee_name(t)
             if n is None or n == "<indirect>":
